@@ -214,6 +214,11 @@ func c06(args []string) int {
 		{Name: "seeded/L1-L8", Cfg: l8, Alphabet: a8, Depth: d(3, 5), Seeds: seeds[:1]},
 		{Name: "seeded/L1-L2/l0-pruned", Cfg: l2ret, Alphabet: a2, Depth: d(2, 4), Seeds: seeds},
 		{Name: "seeded/L1-L2/interval-closed", Cfg: l2closed, Alphabet: a2, Depth: d(2, 3), Seeds: seeds[:1]},
+		// a large image already checkpointed into the database file, then a shrink that lives only in the WAL
+		{Name: "seeded/L1-L2/shrink-after-checkpoint", Cfg: l2, Alphabet: strings.Fields("D VAC SW SNAP CMP:1 W1"), Depth: d(4, 5),
+			Seeds: [][]string{strings.Fields("W3 W3 W3 SW LC:TRUNCATE"), strings.Fields("W3 W3 W3 SW LC:PASSIVE D")}},
+		{Name: "seeded/L1-L3/incr-shrink-after-checkpoint", Cfg: l3, Alphabet: strings.Fields("D IVAC SW SNAP CMP:1 W1"), Depth: d(3, 5),
+			Seeds: [][]string{strings.Fields("W3 W3 W3 SW LC:TRUNCATE D")}},
 		{Name: "merged/L1-L2/wide", Cfg: l2, Alphabet: aw, Depth: d(8, 12), Merge: true, MaxRuns: int64(d(2500, 120000)), Seeds: seeds[:1]},
 	}
 	return hc.RunLayers(layers, ev.Budget(100*time.Second, 40*time.Minute),
